@@ -9,9 +9,11 @@ import gen_args
 PROPERTIES = ["C20"]
 MANIFEST = {
     "C20": {
-        "technique": "Lean 4 proof + TIE BY TRANSLATION (tools/gen_args.py translates the current bodies of Process::Arguments::nextChar / "
-                     "read, the Arguments constructor and Private::splitCommandLine, C++ subset -> Lean, on every run; PropsCode.lean proves the "
-                     "translated functions equal to the model's for every table / state / command line) + Lean 4 proof about the model "
+        "technique": "Lean 4 proof + TIE BY TRANSLATION (tools/gen_args.py translates, C++ subset -> Lean, on every run, the current bodies of "
+                     "Process::Arguments::nextChar / read, the Arguments constructor, Private::splitCommandLine, the Process object functions "
+                     "(constructor, destructor, isRunning, kill, join, close, exit, read x2, write, setEnvironmentVariable) and String::length / "
+                     "find / compare; PropsCode / PropsProc / PropsSel / PropsStr.lean prove the translated functions equal to the model's for "
+                     "every table / state / command line / object / select oracle) + Lean 4 proof about the model "
                      "(checked-memory model of Process::Arguments refined to a declarative getopt_long-convention parser; "
                      "model of splitCommandLine refined to a reference tokenizer, termination on every buffer, expressibility of every "
                      "argument vector; argv/environment handed to execvpe; descriptor tables of open()) + kernel-model-level theorems "
